@@ -1741,9 +1741,11 @@ func (m *Machine) recoverFinalPhase() {
 			continue
 		}
 
-		if t.latestHandlerIsEnter {
+		// revert each state by its own kind: activations are taken back,
+		// deactivations are restored
+		if slices.Contains(t.Enters, s) {
 			activeStates = slicesWithout(activeStates, s)
-		} else {
+		} else if !slices.Contains(activeStates, s) {
 			activeStates = append(activeStates, s)
 		}
 	}
